@@ -22,6 +22,7 @@ import (
 	"sync"
 
 	"github.com/olive-io/bpmn/schema"
+	"github.com/olive-io/bpmn/v2/internal/verifhook"
 	"github.com/olive-io/bpmn/v2/pkg/data"
 	"github.com/olive-io/bpmn/v2/pkg/errors"
 	"github.com/olive-io/bpmn/v2/pkg/event"
@@ -602,11 +603,14 @@ func (p *Process) StartWith(ctx context.Context, element schema.FlowNodeInterfac
 	}
 	switch eventNode := flowNode.(type) {
 	case *startEvent:
+		verifhook.Point("process.startwith.before_trigger")
 		eventNode.Trigger(ctx)
+		verifhook.Point("process.startwith.after_trigger")
 
 		// StartAll cease flow monitor
 		sender := p.tracer.RegisterSender()
 		go p.ceaseFlowMonitor(p.subTracer)(ctx, sender)
+		verifhook.Point("process.startwith.after_monitor")
 		p.tracer.Send(InstantiationTrace{InstanceId: p.id})
 
 	case *throwEvent:
@@ -719,6 +723,7 @@ func (p *Process) ceaseFlowMonitor(tracer tracing.ITracer) func(ctx context.Cont
 		select {
 		case <-waitIsOver:
 			// Send out a cease flow trace
+			verifhook.Point("process.monitor.before_cease")
 			tracer.Send(CeaseFlowTrace{Process: p.element})
 		case <-ctx.Done():
 		}
@@ -732,6 +737,7 @@ func (p *Process) WaitUntilComplete(ctx context.Context) (complete bool) {
 	go func() {
 		p.complete.Lock()
 		defer p.complete.Unlock()
+		verifhook.Point("process.wait.locked")
 		signal <- true
 	}()
 	select {
